@@ -382,12 +382,16 @@ package internal
 //@ spec func allRefsNonNil(refs ResponseRefs) bool = forall i int :: 0 <= i && i < len(refs) ==> refs[i] != nil
 
 //@ iface ResponseCache.GetRefs(c, key)
+//@   property C10
 //@   pure
-//@   ensures result1 != nil ==> len(result0) == 0
-//@   ensures result1 == nil ==> allRefsNonNil(result0) && (len(result0) > 0 ==> fresh(result0))
+//@   ensures result1 != nil ==> len(result0) == 0                     # name: no-refs-on-error
+//@   ensures result1 == nil ==> allRefsNonNil(result0)                # name: refs-non-nil
+//@   ensures upstreamCalls == old(upstreamCalls)
 
 //@ iface ResponseCache.Get(c, key, req)
+//@   property C10
 //@   pure
+//@   ensures upstreamCalls == old(upstreamCalls)
 //@   ensures (result0 != nil) != (result1 != nil)
 //@   ensures result0 != nil ==> result0.Data != nil && result0.Data.Header != nil && fresh(result0) && fresh(result0.Data) && fresh(result0.Data.Header)
 
@@ -502,3 +506,23 @@ package internal
 //@   trusted
 //@   pure
 //@   ensures result != nil
+
+// ---- the response cache over a backend (C10: arbitrary bytes, failing operations) -------------
+//@ func newCacheError
+//@   pure
+//@   fresh
+//@   ensures result != nil
+
+//@ func ParseResponse
+//@   property C10 C05
+//@   pure
+//@   ensures (resp != nil) != (err != nil)                                                            # name: result-shape
+//@   ensures resp != nil ==> resp.Data != nil && resp.Data.Header != nil && fresh(resp) && fresh(resp.Data) && fresh(resp.Data.Header)   # name: decoded-shape
+
+//@ func (*responseCache).Get
+//@   implements ResponseCache.Get
+//@   requires r != nil && r.cache != nil
+//@ func (*responseCache).GetRefs
+//@   implements ResponseCache.GetRefs
+//@   requires r != nil && r.cache != nil
+//@   loop 0 invariant -1 <= rangeindex && rangeindex < len(refs) && (forall j int :: 0 <= j && j <= rangeindex ==> refs[j] != nil)
